@@ -187,6 +187,11 @@ let eval inp obs =
         | _ -> if timer_chan !st then indet := true)
   ) ents;
   let model_toks = Array.to_list out @ !extra in
+  (* a pass so close to the end that its requests may not all have been logged yet: the random
+     peer choice cannot be read off reliably, so a difference there proves nothing *)
+  let t_end = Array.fold_left (fun a e -> match e with E t -> t | _ -> a) max_int ents in
+  let tail_pass = Array.exists (fun e -> match e with P (t, _, _) -> t > t_end - req_window | _ -> false) ents in
+  if tail_pass && model_toks <> obs then indet := true;
   let log = List.concat (Array.to_list slog) in
   let bound = zz (2 * 8 * unit_ms + unit_ms) in
   let spec_impl = spec_check cfg.c_forget bound (nn hl) log in
